@@ -692,11 +692,14 @@ def rmi_codec(ctx, rule):
         inv_bad = [v for v in range(64) if dtable.get(RFC4648[v]) != v]
         ctx.check(not inv_bad, rule, dec.path, "inverse", "decode_rmi(encode_byte(v)) == v for all 64 digits", detail=str(inv_bad[:5]))
     enc = ctx.body("encoder::encode_rmi")
-    ch = q.calls_to(enc, "BitSlice::chunks")
-    ok = len(ch) == 1 and q.shape(q.arg_expr(enc, ch[0][1], 1)) == "6"
+    tree = [enc] + list(ctx.facts.closures_of("encoder::encode_rmi"))  # the per-group work may sit in a closure (map / for_each)
+    ch = [(b2, x) for b2 in tree for x in q.calls_to(b2, "BitSlice::chunks")]
+    ok = len(ch) == 1 and q.shape(q.arg_expr(ch[0][0], ch[0][1][1], 1)) == "6"
     ctx.check(ok, rule, enc.path, "chunks(6)", "the writer emits 6-bit groups")
-    loads = q.calls_to(enc, "BitField::load")
+    loads = [x for b2 in tree for x in q.calls_to(b2, "BitField::load")]
     ctx.check(len(loads) == 1 and loads[0][1]["dest"]["ty"] == "u8", rule, enc.path, "load::<u8>", "each group is loaded as u8")
+    ebs = [q.shape(b2.expr_of_call(t)).replace("^", "") for b2 in tree for bi, t in q.calls_to(b2, "encoder::encode_rmi::encode_byte")]
+    ctx.check(len(ebs) == 1 and q.wild("encode_rmi::encode_byte(BitField::load(*))", ebs[0]), rule, enc.path, "digit-per-group", "every 6-bit group becomes one digit through encode_byte", detail=str(ebs))
     views = [t for bi, t in enc.calls() if q.nice(t.get("callee")) == "BitView::view_bits"]
     ok = bool(views) and all(any("Lsb0" in a for a in t.get("callee_args", [])) for t in views)
     ctx.check(ok, rule, enc.path, "Lsb0", "bits are viewed least-significant-bit first")
